@@ -462,6 +462,21 @@ def mk_SoCMini(r):
     return s, {s.tb.adr: adrs, s.tb.sel: [15, 15, 1, 3, 12], s.tb.cti: [0], s.tb.bte: [0]}
 
 
+def mk_CombChain(r):
+    """(harness design) a deep chain of combinational assignments, written last stage first: the reference simulator needs one delta
+    cycle per stage to reach the fix point the Verilog always @(*) blocks / continuous assignments define."""
+    from migen import Module, Signal
+    n, w = r.choice([12, 40, 70, 100, 150, 220]), r.choice([4, 8])
+    m = Module()
+    m.i, m.o, m.tap = Signal(w, name="chain_i"), Signal(w, name="chain_o"), Signal(w, name="chain_tap")
+    st = [Signal(w, name="st%d" % k) for k in range(n)]
+    for k in reversed(range(1, n)):
+        m.comb += st[k].eq(st[k - 1] ^ ((k * 37) & ((1 << w) - 1))) if k % 3 else st[k].eq(~st[k - 1])
+    m.comb += [st[0].eq(m.i), m.tap.eq(st[n // 2])]
+    m.sync += m.o.eq(st[-1])
+    return m
+
+
 MAKERS = {
     "SyncFIFO": mk_SyncFIFO, "AsyncFIFO": mk_AsyncFIFO, "Converter": mk_Converter, "StrideConverter": mk_StrideConverter,
     "Gearbox": mk_Gearbox, "Buffer": mk_Buffer, "MuxDemux": mk_MuxDemux, "Packetizer": mk_Packetizer, "Depacketizer": mk_Depacketizer,
@@ -472,7 +487,7 @@ MAKERS = {
     "Encoder8b10b": mk_Encoder8b10b, "Decoder8b10b": mk_Decoder8b10b, "TMDS": mk_TMDS, "ECC": mk_ECC, "PRBS": mk_PRBS,
     "UARTPHY": mk_UARTPHY, "UART": mk_UART, "SPIMaster": mk_SPIMaster, "WaitTimer": mk_WaitTimer,
     "PulseSynchronizer": mk_PulseSynchronizer, "FSMCounter": mk_FSMCounter, "DMA": mk_DMA, "SoCMini": mk_SoCMini, "AXIFull": mk_AXIFull, "AHBAvalon": mk_AHBAvalon, "I2CMachine": mk_I2C,
-    "WishboneBurstSRAM": mk_WishboneBurstSRAM, "SPISlave": mk_SPISlave,
+    "WishboneBurstSRAM": mk_WishboneBurstSRAM, "SPISlave": mk_SPISlave, "CombChain": mk_CombChain,
 }
 CORES = sorted(MAKERS)
 
